@@ -193,6 +193,8 @@ impl Property for C20Prop {
 
     fn generate(&self, rng: &mut Rng, tier: Tier, _index: u64) -> Scenario {
         let m = rng.range(1, 3) as usize;
+        // session ids start at 1, 9 or 98: one-, two- and three-digit ids in the paths
+        let base: u32 = *rng.pick(&[1u32, 1, 9, 98]);
         let mut n = 0usize;
         let nmax = if tier == Tier::Quick { 3 } else { 5 };
         let mut notes = BTreeMap::new();
@@ -256,7 +258,7 @@ impl Property for C20Prop {
             let mut pairs: Vec<(String, String)> = Vec::new();
             let kind = rng.below(8);
             let url = match kind {
-                0 => format!("@base/scxml/{}", *rng.pick(&[0u32, 77, 99, 4000000000])),
+                0 => format!("@base/scxml/{}", *rng.pick(&[0u32, 77, 950, 4000000000, base + 20, if base > 1 { base / 10 } else { 0 }])),
                 1 => format!("@base/scxml/{}", *rng.pick(&["abc", "1x", "-1", "1.0"])),
                 _ => format!("@loc:{}", rng.below(m as u64)),
             };
@@ -340,7 +342,7 @@ impl Property for C20Prop {
             .collect();
         notes.insert("net_plan".into(), plan.join(","));
         notes.insert("m".into(), m.to_string());
-        Scenario { kind: "S5-http".into(), docs, files: vec![], script, producers, knobs: Knobs { snapshots: false, ..Default::default() }, notes }
+        Scenario { kind: "S5-http".into(), docs, files: vec![], script, producers, knobs: Knobs { snapshots: false, id_base: base, ..Default::default() }, notes }
     }
 
     fn check(&self, v: &RunView, probes: &mut Probes) -> Verdict {
